@@ -1,6 +1,8 @@
 import AC.Drv.Proto
 import AC.SeqAlg
 import AC.ChainX
+import AC.Halving
+import AC.Gen.ProgramFns
 /-! driver handler for C08: `c08 <alg code> <targets> <impl: err|panic|chain> <values-unchanged>` -/
 namespace AC.Drv
 open P
@@ -45,5 +47,26 @@ def handleC08 (f : List String) : Res :=
       { r with nt := big, tag := s!"alg={alg},out={if impl == "err" then "err" else "ok"}" }
     | _, _ => bad "c08-parse"
   | _ => bad "c08-arity"
+
+/-- `c08s <H|D> <f> <target> <impl: nil|panic|list>`: one `Suggest` call; the model and the function
+    translated from heuristic.go must both agree with the implementation -/
+def handleC08s (f : List String) : Res :=
+  match f with
+  | [code, fs, ts, impl] =>
+    match pInts fs, pInt ts with
+    | some fl, some t =>
+      let r : Res := {}
+      let showO : Option (List Int) → String
+        | none => "panic" | some [] => "nil" | some l => showInts l
+      let r := if code == "H" then
+          let r := cmp "halving-model" (match P.suggestHalving fl t with | none => "nil" | some l => showInts l) impl r
+          cmp "translated-halving" (showO (AC.Gen.Program.heuristicHalvingSuggest fl t)) impl r
+        else
+          let last := fl.getLastD 0
+          let r := cmp "deltalargest-model" (if t - last ≤ 0 then "panic" else showInts [t - last]) impl r
+          cmp "translated-deltalargest" (showO (AC.Gen.Program.heuristicDeltaLargestSuggest fl t)) impl r
+      { r with spec := "na", nt := fl.length ≥ 2, tag := s!"suggest={code},out={if impl == "nil" || impl == "panic" then impl else "list"}" }
+    | _, _ => bad "c08s-parse"
+  | _ => bad "c08s-arity"
 
 end AC.Drv
